@@ -48,7 +48,7 @@ var shadowNames = []string{"min", "max", "any", "all", "int", "repr", "hash", "r
 func (g *gen) scenario() {
 	g.topCost += 60
 	F, G := g.freshF, g.freshG
-	switch g.r.Intn(29) {
+	switch g.r.Intn(35) {
 	case 0: // closure over a local and a parameter
 		g.tag("closure")
 		f, v, w := F(), G(), G()
@@ -387,6 +387,59 @@ def %[1]s(n):
 trace(%[1]s(%[4]d))`, f, g.r.Intn(2), g.r.Intn(3), 3+g.r.Intn(5)))
 	case 25, 26, 27: // mutation of a container that is being iterated or is frozen
 		g.lockedMutation()
+	case 28, 29: // None / True / False are ordinary identifiers: parameters, locals, loop and comprehension variables
+		g.tag("shadow")
+		g.tag("shadow-constant-name")
+		f, v := F(), G()
+		nm := hx.Pick(g.r, []string{"None", "True", "False"})
+		other := hx.Pick(g.r, []string{"None", "True", "False"})
+		g.lines(fmt.Sprintf(`
+def %[1]s(%[3]s, y):
+	trace(%[3]s, y)
+	%[4]s = [%[3]s, y]
+	for %[3]s in [%[5]d, %[6]d]:
+		y = y + %[3]s
+	return (%[3]s, %[4]s, [%[4]s for %[4]s in (7, 8)], (lambda: %[3]s)(), y)
+%[2]s = %[1]s(%[7]d, %[8]d)
+trace(%[2]s, None, True, False)`, f, v, nm, other, g.k(), g.k(), g.k(), g.k()))
+	case 30, 31: // keyword-only parameters cannot be filled positionally
+		g.tag("kwonly")
+		g.tag("kwonly-positional")
+		f := F()
+		dflt := ""
+		if g.chance(50) {
+			dflt = fmt.Sprintf("=%d", g.k())
+		}
+		g.lines(fmt.Sprintf(`
+def %[1]s(a, *, c%[2]s):
+	trace("in", a, c)
+	return (a, c)
+trace(%[1]s(%[3]d, c=%[4]d))
+trace(%[1]s(%[3]d, %[4]d))`, f, dflt, g.k(), g.k()))
+	case 32, 33: // sequence assignment with too many / too few values from a container held in a global
+		g.tag("unpack")
+		g.tag("err-unpack")
+		f, v := F(), G()
+		n := 3 + g.r.Intn(2)
+		if g.chance(25) {
+			n = 1
+		}
+		elems := make([]string, n)
+		for i := range elems {
+			elems[i] = fmt.Sprint(g.k())
+		}
+		cont := "[" + strings.Join(elems, ", ") + "]"
+		if g.chance(30) {
+			cont = "{" + strings.Join(elems, ": 0, ") + ": 0}"
+		}
+		form := hx.Pick(g.r, []string{"a, b = %s", "[a, b] = %s", "(a, b) = %s", "for a, b in [%s]:\n\t\tpass"})
+		g.lines(fmt.Sprintf(`
+%[2]s = %[3]s
+def %[1]s():
+	trace("unpacking", len(%[2]s))
+	`+form+`
+	return %[2]s
+trace(%[1]s())`, f, v, cont, v))
 	default: // keyword-only parameters and evaluation order of arguments
 		g.tag("kwonly")
 		g.tag("call-named")
